@@ -168,52 +168,110 @@ Proof.
 Qed.
 
 (* ---- _del_tokens on cells ------------------------------------------------------------------------ *)
-Definition del_res (A M B : list cell) : list cell :=
+(* the else-branch keeps the gap of the first removed cell (it goes in front of the gap of the next cell) when
+   there is a cell in front, a cell behind, and RepeatedProofs.keep_gap: that gap is not empty, all blank, and the
+   nearest token with text behind the window (looked for through `post` too) shows a character that has to be
+   kept apart *)
+Definition del_res (A M B : list cell) (post : list tok) : list cell :=
   match A, M, B with
   | [], m0 :: _, b0 :: B' => mkcell (c_gap m0) (c_body b0) :: B'
+  | _ :: _, m0 :: _, b0 :: B' =>
+      if keep_gap (c_gap m0) (flat B ++ post) then A ++ mkcell (c_gap m0 ++ c_gap b0) (c_body b0) :: B' else A ++ B
   | _, _, _ => A ++ B
   end.
+
+Lemma del_res_front : forall a A M B post,
+  del_res (a :: A) M B post =
+  match M, B with
+  | m0 :: _, b0 :: B' =>
+      if keep_gap (c_gap m0) (flat B ++ post) then (a :: A) ++ mkcell (c_gap m0 ++ c_gap b0) (c_body b0) :: B'
+      else (a :: A) ++ B
+  | _, _ => (a :: A) ++ B
+  end.
+Proof. intros a A [|m0 M] [|b0 B] post; reflexivity. Qed.
+
+Lemma del_res_flat : forall A m0 M1 B post, (A <> [] \/ B = []) ->
+  flat (del_res A (m0 :: M1) B post) =
+  flat A ++ (if (match B with [] => false | _ => true end) && keep_gap (c_gap m0) (flat B ++ post) then c_gap m0 else [])
+         ++ flat B.
+Proof.
+  intros A m0 M1 B post H. destruct A as [|a A].
+  - destruct H as [H| ->]; [congruence|]. reflexivity.
+  - rewrite del_res_front. destruct B as [|b0 B']; [now rewrite flat_app|].
+    cbn [andb]. destruct (keep_gap _ _).
+    + rewrite !flat_app, !flat_cons. cbn [c_gap c_body]. repeat rewrite <- app_assoc. reflexivity.
+    + rewrite flat_app. reflexivity.
+Qed.
 
 Lemma del_layout_else : forall ph pre pht A M B post,
   WF ph pre pht (A ++ M ++ B) post -> M <> [] -> (A <> [] \/ B = []) ->
   del_tokens ph (lay pre pht (A ++ M ++ B) post) (map item_of (A ++ M ++ B)) (zlen A) (zlen A + zlen M)
-  = (lay pre pht (A ++ B) post, Ok tt).
+  = (lay pre pht (del_res A M B post) post, Ok tt).
 Proof.
   intros ph pre pht A M B post (Hph & Hnd & Hok) HM HAB.
-  destruct (snoc_cases M) as [->|(M' & m & ->)]; [congruence|].
+  destruct (snoc_cases M) as [->|(M' & m & EM)]; [congruence|].
+  destruct M as [|m0 M1]; [congruence|].
   apply Forall_app_inv in Hok. destruct Hok as [HokA Hok]. apply Forall_app_inv in Hok. destruct Hok as [HokM HokB].
-  apply Forall_app_inv in HokM. destruct HokM as [_ Hokm]. inversion Hokm as [|? ? [Hmb _] _]; subst.
-  destruct (flat_last M' m Hmb) as [Hne Hlast].
+  assert (Hmb : c_body m <> []).
+  { rewrite EM in HokM. apply Forall_app_inv in HokM. destruct HokM as [_ Hokm]. inversion Hokm as [|? ? [Hmb _] _]. exact Hmb. }
+  assert (Hm0b : c_body m0 <> []) by (inversion HokM as [|? ? [Hb _] _]; exact Hb).
+  set (X := c_body m0 ++ flat M1).
+  assert (HneX : X <> []). { unfold X. intro E. apply app_eq_nil in E. destruct E; congruence. }
+  assert (EflatM : flat (m0 :: M1) = c_gap m0 ++ X) by (rewrite flat_cons; reflexivity).
+  assert (HlastX : last X dft = last (c_body m) dft).
+  { destruct (flat_last M' m Hmb) as [_ Hl]. rewrite <- EM, EflatM in Hl. rewrite <- Hl. symmetry. now apply last_app_ne. }
+  assert (HhdX : hd dft X = hd dft (c_body m0)) by (unfold X; now apply hd_app_ne).
   pose proof (zlen_nonneg A) as HzA. pose proof (zlen_nonneg M') as HzM. pose proof (zlen_nonneg B) as HzB.
-  assert (Hget : list_get_int (map item_of (A ++ (M' ++ [m]) ++ B)) (zlen A + zlen (M' ++ [m]) - 1) = Ok (item_of m)).
-  { replace (A ++ (M' ++ [m]) ++ B) with ((A ++ M') ++ m :: B) by (repeat rewrite <- app_assoc; reflexivity).
+  assert (Hget : list_get_int (map item_of (A ++ (m0 :: M1) ++ B)) (zlen A + zlen (m0 :: M1) - 1) = Ok (item_of m)).
+  { rewrite EM. replace (A ++ (M' ++ [m]) ++ B) with ((A ++ M') ++ m :: B) by (repeat rewrite <- app_assoc; reflexivity).
     replace (zlen A + zlen (M' ++ [m]) - 1) with (zlen (A ++ M')) by (rewrite !zlen_app; change (zlen [m]) with 1; lia).
     apply get_item_mid. }
-  assert (Hbr : (zlen A =? 0) && (zlen A + zlen (M' ++ [m]) <? zlen (map item_of (A ++ (M' ++ [m]) ++ B))) = false).
+  assert (Hgets : list_get_int (map item_of (A ++ (m0 :: M1) ++ B)) (zlen A) = Ok (item_of m0)).
+  { cbn [app]. apply get_item_mid. }
+  assert (Hlen : zlen (m0 :: M1) = zlen M' + 1) by (rewrite EM, zlen_app; reflexivity).
+  assert (Hbr : (zlen A =? 0) && (zlen A + zlen (m0 :: M1) <? zlen (map item_of (A ++ (m0 :: M1) ++ B))) = false).
   { rewrite zlen_map, !zlen_app. destruct HAB as [HA| ->].
     - destruct A; [congruence|]. rewrite zlen_cons. pose proof (zlen_nonneg A). lia.
     - change (zlen (@nil cell)) with 0. lia. }
-  assert (Hlt : zlen A < zlen A + zlen (M' ++ [m])) by (rewrite zlen_app; change (zlen [m]) with 1; lia).
-  destruct (snoc_cases A) as [->|(A' & a & ->)].
+  assert (Hstop : (zlen A + zlen (m0 :: M1) <? zlen (map item_of (A ++ (m0 :: M1) ++ B)))
+                  = match B with [] => false | _ => true end).
+  { rewrite zlen_map, !zlen_app. destruct B as [|b0 B'].
+    - change (zlen (@nil cell)) with 0. lia.
+    - rewrite (zlen_cons b0). pose proof (zlen_nonneg B'). lia. }
+  assert (Hlt : zlen A < zlen A + zlen (m0 :: M1)) by lia.
+  assert (Eres : forall Pp, Pp ++ flat (del_res A (m0 :: M1) B post) ++ post
+            = (Pp ++ flat A) ++ (if (zlen A + zlen (m0 :: M1) <? zlen (map item_of (A ++ (m0 :: M1) ++ B)))
+                                     && keep_gap (c_gap m0) (flat B ++ post) then c_gap m0 else []) ++ flat B ++ post).
+  { intros Pp. rewrite Hstop, (del_res_flat A m0 M1 B post HAB). repeat rewrite <- app_assoc. reflexivity. }
+  destruct (snoc_cases A) as [EA|(A' & a & EA)].
   - (* from the placeholder *)
-    unfold lay in *. cbn [app] in *. rewrite (flat_app (M' ++ [m]) B) in *.
-    replace (pre ++ pht :: (flat (M' ++ [m]) ++ flat B) ++ post)
-      with (pre ++ pht :: flat (M' ++ [m]) ++ flat B ++ post) in * by (now rewrite <- app_assoc).
-    erewrite del_tokens_else; [reflexivity|exact Hnd|exact Hne|exact Hlt|exact Hbr| |exact Hget|].
-    + reflexivity.
-    + cbn [snd item_of]. now rewrite Hlast.
+    assert (Elay : lay pre pht (A ++ (m0 :: M1) ++ B) post = pre ++ pht :: c_gap m0 ++ X ++ flat B ++ post).
+    { subst A. unfold lay. change ([] ++ (m0 :: M1) ++ B) with ((m0 :: M1) ++ B). rewrite (flat_app (m0 :: M1) B), EflatM. repeat rewrite <- app_assoc. reflexivity. }
+    rewrite Elay in *.
+    erewrite del_tokens_else; [|exact Hnd|exact HneX|exact Hlt|exact Hbr| |exact Hget| |exact Hgets|].
+    + unfold lay. f_equal. f_equal. specialize (Eres []). cbn [app] in Eres. rewrite Eres. subst A. reflexivity.
+    + subst A. rewrite <- Hph. reflexivity.
+    + cbn [snd item_of]. now rewrite HlastX.
+    + cbn [fst item_of]. now rewrite HhdX.
   - (* from the last token of the preceding item *)
-    apply Forall_app_inv in HokA. destruct HokA as [_ Hoka]. inversion Hoka as [|? ? [Hab _] _]; subst.
+    assert (Hab : c_body a <> []).
+    { rewrite EA in HokA. apply Forall_app_inv in HokA. destruct HokA as [_ Hoka]. inversion Hoka as [|? ? [Hab _] _]. exact Hab. }
     destruct (exists_last Hab) as [ba [p Ea]].
-    assert (Elay : forall X, lay pre pht ((A' ++ [a]) ++ X) post
-                   = (pre ++ pht :: flat A' ++ c_gap a ++ ba) ++ p :: flat X ++ post).
-    { intros X. unfold lay. rewrite flat_app, flat_app, flat_cons, flat_nil, app_nil_r, Ea.
-      repeat rewrite <- app_assoc. cbn [app]. repeat rewrite <- app_assoc. reflexivity. }
-    rewrite (Elay ((M' ++ [m]) ++ B)), (Elay B). rewrite (Elay ((M' ++ [m]) ++ B)) in Hnd.
-    rewrite (flat_app (M' ++ [m]) B) in *. rewrite <- (app_assoc (flat (M' ++ [m]))) in *.
-    erewrite del_tokens_else; [reflexivity|exact Hnd|exact Hne|exact Hlt|exact Hbr| |exact Hget|].
-    + rewrite prev_last_cells_snoc. rewrite Ea, last_last. reflexivity.
-    + cbn [snd item_of]. now rewrite Hlast.
+    assert (EflatA : forall Y, flat A ++ Y = (flat A' ++ c_gap a ++ ba) ++ p :: Y).
+    { intros Y. rewrite EA, flat_app, flat_cons, flat_nil, app_nil_r, Ea. repeat rewrite <- app_assoc. reflexivity. }
+    assert (Elay : lay pre pht (A ++ (m0 :: M1) ++ B) post
+                   = (pre ++ pht :: flat A' ++ c_gap a ++ ba) ++ p :: c_gap m0 ++ X ++ flat B ++ post).
+    { unfold lay. rewrite flat_app, (flat_app (m0 :: M1) B), EflatM.
+      rewrite <- (app_assoc (flat A)), EflatA. repeat rewrite <- app_assoc. cbn [app]. repeat rewrite <- app_assoc. reflexivity. }
+    rewrite Elay in *.
+    erewrite del_tokens_else; [|exact Hnd|exact HneX|exact Hlt|exact Hbr| |exact Hget| |exact Hgets|].
+    + unfold lay. f_equal. specialize (Eres [pht]). cbn [app] in Eres.
+      change (pht :: flat (del_res A (m0 :: M1) B post) ++ post) with ([pht] ++ flat (del_res A (m0 :: M1) B post) ++ post).
+      repeat rewrite <- app_assoc. cbn [app]. f_equal. injection Eres as Eres. rewrite Eres.
+      rewrite EflatA. repeat rewrite <- app_assoc. reflexivity.
+    + rewrite EA. rewrite prev_last_cells_snoc. rewrite Ea, last_last. reflexivity.
+    + cbn [snd item_of]. now rewrite HlastX.
+    + cbn [fst item_of]. now rewrite HhdX.
 Qed.
 
 Lemma del_layout_first : forall ph pre pht m0 M' b0 B' post,
@@ -248,15 +306,14 @@ Qed.
 Theorem del_layout : forall ph pre pht A M B post,
   WF ph pre pht (A ++ M ++ B) post -> M <> [] ->
   del_tokens ph (lay pre pht (A ++ M ++ B) post) (map item_of (A ++ M ++ B)) (zlen A) (zlen A + zlen M)
-  = (lay pre pht (del_res A M B) post, Ok tt).
+  = (lay pre pht (del_res A M B post) post, Ok tt).
 Proof.
   intros ph pre pht A M B post H HM.
   destruct A as [|a A].
   - destruct M as [|m0 M']; [congruence|]. destruct B as [|b0 B'].
     + apply (del_layout_else ph pre pht [] (m0 :: M') [] post H HM). now right.
     + cbn [app del_res]. rewrite zlen_nil, Z.add_0_l. apply del_layout_first. exact H.
-  - replace (del_res (a :: A) M B) with ((a :: A) ++ B) by (destruct M; reflexivity).
-    apply del_layout_else; [exact H|exact HM|left; discriminate].
+  - apply del_layout_else; [exact H|exact HM|left; discriminate].
 Qed.
 
 (* nothing to delete *)
